@@ -209,7 +209,18 @@ func runStartSpin(t *tape.Tape, cfg sim.Config) (res sim.Result) {
 	res.Logf("%d instantiation(s) spinning in the start-section function, cause %d at callback %d", ninst, cause, k)
 	res.Nontrivial = true
 	res.Stat("probe.guest_spinning_in_its_start_function", 1)
-	<-fired
+	select {
+	case <-fired:
+	case ierr := <-done:
+		// every instantiation ended before the k-th callback: legitimate only for a deadline that passed
+		// earlier (a slow machine); the outcome is judged all the same
+		if ierr == nil {
+			res.Fail("wrong-error", "start function spinning, cause %d: InstantiateModule returned no error", cause)
+		} else if cause != 1 {
+			res.Fail("wrong-error", "start function spinning: InstantiateModule returned %v before the cause (%d) was fired", ierr, cause)
+		}
+		return
+	}
 	select {
 	case ierr := <-done:
 		if ierr == nil {
